@@ -70,7 +70,7 @@ def run(ctx):
         good.append({'k': 'chunk', 'b': r['b'], 'steps': steps, '_ch': r['_ch']})
     for i, err in crashes:
         violations.append({'signature': 'crash:chunks', 'line': lines[i][:400], 'stderr': err[-2000:]})
-    bad = vlib.check_cases([{k: v for k, v in g.items() if k != '_ch'} for g in good], shard=300)
+    bad = vlib.check_cases([{k: v for k, v in g.items() if k != '_ch'} for g in good], shard=300, devnames=('LenientUniqueName',))
     for i in bad:
         g = good[i]
         violations.append({'signature': 'chunks:%s:%s' % (bytes(g['b'])[:24].hex(), ','.join(map(str, g['_ch'][:6]))), 'stream': bytes(g['b']).hex(),
